@@ -225,6 +225,7 @@ func vAgentGen(o *vOut, r *vRand, thorough bool, args []string, emit func(string
 	}
 	t0 := time.Now()
 	nSupersede := r.intn(24)
+	nRenomDir := r.intn(18)
 	for i := 0; i < n && time.Since(t0) < budget; i++ {
 		g := &vGenSess{r: r.fork(), emit: emit, o: o, focus: focus}
 		singles := 3 // out of 10
@@ -237,6 +238,11 @@ func vAgentGen(o *vOut, r *vRand, thorough bool, args []string, emit func(string
 			singles = 2
 		}
 		switch {
+		case (focus == "C20" && i%5 == 2) || ((focus == "C01" || focus == "C03") && i%10 == 5):
+			// directed renomination scenarios, cycled (not drawn): every variant occurs in every quick run
+			g.seq = nRenomDir
+			nRenomDir++
+			g.renomDirected()
 		case focus == "C20" && g.r.chance(1, 4):
 			g.renomExchange()
 		case ((focus == "C03" || focus == "C06") && g.r.chance(1, 3)) || ((focus == "C20" || focus == "C07") && g.r.chance(1, 6)) || (focus == "" && g.r.chance(1, 30)):
@@ -969,6 +975,185 @@ func (g *vGenSess) prflxSelSupersede() {
 	g.op("read A")
 	g.op("read B")
 	pump(3, false)
+}
+
+// renomDirected (directed, variants cycled through g.seq): renomination exchanges between A (controlling, one local x,
+// optionally behind a NAT) and B (controlled, two locals) in which a VALUE-LESS nomination and a renomination with a
+// value meet on the controlled side.  Every datagram is delivered by hand (picked by its text in g.fl); the session ends
+// with a long fair loss-free suffix and `mark quiesced`, where the monitor judges the agreement of the two selections.
+//
+//	0,1,2  the initial nomination of pair PA is DEFERRED at B (B has not validated PA: A's answers to B's checks of PA are
+//	       held back), a renomination of the valid pair PB is accepted meanwhile, then B's check of PA completes;
+//	       priority(PA) >, =, < priority(PB)
+//	3      B is connected on P1 and never validated P2 itself (all its checks of P2 up to then are dropped); A renominates
+//	       P2: B must send a triggered check of P2 although it has a selected pair
+//	4      B is ICE-lite: a duplicate of the initial nomination of P1 arrives after the renomination of P2 was accepted
+//	5      as 0-2 (priorities cycle with g.seq/6) but the renomination is accepted BEFORE the initial nomination arrives
+func (g *vGenSess) renomDirected() {
+	r := g.r
+	g.hasB = true
+	g.fl = nil
+	variant := g.seq % 6
+	g.o.stat(fmt.Sprintf("sess.renomdirected.%d", variant))
+	x, y1, y2 := 16, 176, 192
+	xb := x // A's address as B sees it
+	nat := r.chance(1, 3)
+	hi, lo := 2130706431, 2130706175
+	p1, p2 := hi, lo // priorities of B's locals y1, y2 (A's ordinary nomination goes to the pair of y1)
+	liteB := ""
+	switch variant {
+	case 1:
+		p2 = hi
+	case 2:
+		p1, p2 = lo, hi
+	case 4:
+		liteB = ",lite=1"
+	case 5:
+		switch (g.seq / 6) % 3 {
+		case 1:
+			p2 = hi
+		case 2:
+			p1, p2 = lo, hi
+		}
+	}
+	g.op("new renom=1,tb=9,u=uA0,p=pA0 tb=5,u=uB0,p=pB0%s", liteB)
+	if nat {
+		xb = 336
+		g.op("nat %d %d", x, xb)
+		g.o.stat("topo.nat")
+	}
+	g.op("addlocal A 1 0 %d 2130706431 -", x)
+	g.op("addlocal B 1 0 %d %d -", y1, p1)
+	g.op("addlocal B 1 0 %d %d -", y2, p2)
+	g.op("addremote A 1 0 %d %d -", y1, p1)
+	g.op("addremote A 1 0 %d %d -", y2, p2)
+	if nat {
+		g.op("addremote B 2 0 %d 1694498815 %d", xb, x)
+	} else {
+		g.op("addremote B 1 0 %d 2130706431 -", x)
+	}
+	g.op("start A 1 uB0 pB0")
+	g.op("start B 0 uA0 pA0")
+	// datagram pickers: A's requests / B's requests / success responses, per pair (y = B's local of the pair)
+	find := func(pre string, has ...string) int {
+	next:
+		for k, d := range g.fl {
+			if !strings.HasPrefix(d, pre) {
+				continue
+			}
+			for _, h := range has {
+				if !strings.Contains(d, h) {
+					continue next
+				}
+			}
+			return k
+		}
+		return -1
+	}
+	do := func(kind string, pre string, has ...string) bool {
+		k := find(pre, has...)
+		if k < 0 {
+			return false
+		}
+		if kind == "dup" {
+			g.op("dup %d", k)
+		} else {
+			g.flop(kind, k)
+		}
+		return true
+	}
+	reqA := func(y int) string { return fmt.Sprintf("%d>%d:REQ:A#", x, y) }
+	reqB := func(y int) string { return fmt.Sprintf("%d>%d:REQ:B#", y, xb) }
+	sucToA := func(y int) string { return fmt.Sprintf("%d>%d:SUC:A#", y, xb) }
+	sucToB := func(y int) string { return fmt.Sprintf("%d>%d:SUC:B#", x, y) }
+	drain := func(dropPre string) {
+		for guard := 0; len(g.fl) > 0 && guard < 400; guard++ {
+			if dropPre != "" && strings.HasPrefix(g.fl[0], dropPre) {
+				g.flop("drop", 0)
+			} else {
+				g.flop("deliver", 0)
+			}
+		}
+	}
+	v := 1 + r.intn(3)
+	switch variant {
+	case 0, 1, 2, 5:
+		// PA = pair of y1 (initially nominated, not valid at B), PB = pair of y2 (valid on both sides)
+		do("deliver", reqA(y1)) // B answers and sends a triggered check of PA
+		do("deliver", reqA(y2))
+		do("deliver", sucToA(y1)) // PA valid at A; A's answers to B's checks of PA are held back from now on
+		if do("deliver", reqB(y2)) {
+			do("deliver", sucToB(y2)) // PB valid at B
+		}
+		g.op("adv 200") // A nominates its only valid pair PA (USE-CANDIDATE without a value)
+		do("deliver", sucToA(y2)) // PB valid at A
+		plain := func() {
+			if do("deliver", reqA(y1), ":uc=1:", ":nom=-") { // deferred at B: PA is not valid there
+				if r.chance(1, 2) {
+					do("deliver", sucToA(y1))
+				}
+			}
+		}
+		renom := func() {
+			g.op("renom A %d 1 %d", x, v)
+			if do("deliver", reqA(y2), fmt.Sprintf(":nom=%d", v)) { // accepted: PB is valid, B selects it
+				do("deliver", sucToA(y2)) // A selects PB
+			}
+		}
+		if variant == 5 {
+			renom()
+			plain()
+		} else {
+			plain()
+			renom()
+		}
+		// now B's own check of PA completes
+		if do("deliver", reqB(y1)) {
+			do("deliver", sucToB(y1))
+		}
+	case 3:
+		do("deliver", reqA(y1))
+		do("deliver", reqA(y2)) // B sends a triggered check of P2 ...
+		for do("drop", reqB(y2)) { // ... which is lost, as is its initial one
+		}
+		do("deliver", sucToA(y1))
+		do("deliver", sucToA(y2))
+		if do("deliver", reqB(y1)) {
+			do("deliver", sucToB(y1)) // P1 valid at B
+		}
+		g.op("adv 200") // A nominates P1; B (nothing selected yet) may retry P2: lost again
+		for do("drop", reqB(y2)) {
+		}
+		if do("deliver", reqA(y1), ":uc=1:", ":nom=-") { // B selects P1
+			do("deliver", sucToA(y1)) // A selects P1
+		}
+		drain(reqB(y2))
+		g.op("adv %d", []int{20, 50}[r.intn(2)])
+		drain(reqB(y2))
+		g.op("renom A %d 1 %d", x, v) // deferred at B, which has to validate P2 by a triggered check of its own
+		drain("")
+	default: // 4: lite B
+		do("deliver", reqA(y1))
+		do("deliver", reqA(y2))
+		do("deliver", sucToA(y1))
+		do("deliver", sucToA(y2))
+		g.op("adv 200") // A nominates P1
+		if do("dup", reqA(y1), ":uc=1:", ":nom=-") { // a copy reaches B (selects P1), the original stays in flight
+			do("deliver", sucToA(y1)) // A selects P1
+		}
+		g.op("renom A %d 1 %d", x, v)
+		if do("deliver", reqA(y2), fmt.Sprintf(":nom=%d", v)) { // B selects P2
+			do("deliver", sucToA(y2)) // A selects P2
+		}
+		do("deliver", reqA(y1), ":uc=1:", ":nom=-") // the delayed original of the initial nomination
+	}
+	// everything else is delivered; fair loss-free suffix longer than the keepalive interval + 1 s
+	for i := 0; i < 8+r.intn(3); i++ {
+		drain("")
+		g.op("adv %d", []int{400, 500}[r.intn(2)])
+	}
+	drain("")
+	g.op("mark quiesced")
 }
 
 // renomPrflx: a renomination that reaches the controlled side on a pair whose remote is still
